@@ -404,7 +404,7 @@ func TestC11Requests(t *testing.T) {
 			},
 			"unsolicited": func(rt *rapid.T) {
 				c := h.Current()
-				if c == nil || !c.State.Accepted {
+				if c == nil || !c.Accepted() {
 					rt.Skip("no connection")
 				}
 				var b []byte
@@ -576,7 +576,7 @@ func TestC11KnownF07(t *testing.T) {
 			return
 		}
 		// the read routine notices the loss (releases A's slot) and reconnects
-		for i := 0; i < 4 && (h.Current() == nil || !h.Current().State.Accepted); i++ {
+		for i := 0; i < 4 && (h.Current() == nil || !h.Current().Accepted()); i++ {
 			h.appStep("reconnect")
 		}
 		if h.Current() == nil {
